@@ -135,7 +135,17 @@ def main():
         stages = []      # (rows, cols, regs)
         body = []
         inline = rng.random() < 0.35
-        for _ in range(1 if inline else rng.randint(1, 4)):
+        # a block may stage nothing at all: it is empty, or its only stage stands in a branch that
+        # is not taken or in a loop that makes no pass — the matrix is transmitted all the same,
+        # every cell with the default colour
+        n_stages = 1 if inline else rng.choice([0, 1, 1, 2, 2, 3, 4])
+        if n_stages == 0:
+            dead = set_regs(color_regs(rng, mode)) + [('stage', (num(0), None), None, False)]
+            body = rng.choice([[], [('if', ('expr', ('bin', '>', num(1), num(2))), dead, None)],
+                               [('repeat', ('count', num(0)), dead)],
+                               set_regs(color_regs(rng, mode))])
+            stats['blocks_without_a_stage'] = stats.get('blocks_without_a_stage', 0) + 1
+        for _ in range(n_stages):
             regs = color_regs(rng, mode)
             prev = stages[-1][2] if stages else default
             if prev is not None and rng.random() < 0.4:
